@@ -71,7 +71,8 @@ __CPROVER_ensures(__CPROVER_return_value.count == g_relax.count && __CPROVER_ret
 
 LPE_RULES = Q_RULES + [
     Rule(r"Span<Secondary> secondaries;", "SpanSecondary secondaries = {0, 0};", 1, note="default Span"),
-    Rule(r"relaxation_ \? 1 \+ relaxation_\.max_secondaries\(\) : 1", "self->relaxation_.enabled ? 1 + self->relaxation_.max_secondaries_ : 1", 1, note="helper operator bool / accessor"),
+    Rule(r"relaxation_\.max_secondaries\(\)", "self->relaxation_.max_secondaries_", "*", note="helper accessor"),
+    Rule(r"(?<![\w.>])relaxation_ \?", "self->relaxation_.enabled ?", "*", note="helper operator bool"),
     Rule(r"if \(Secondary\* ptr = allocate_\(count\)\)", "Secondary* ptr = ALLOC_call(count);\n    if (ptr)", 1, note="if-with-declaration -> declaration + if; allocator functor -> stub with the c16_alloc contract"),
     Rule(r"secondaries = \{ptr, count\};", "secondaries.ptr = ptr; secondaries.size = count;", 1, note="Span aggregate assignment"),
     Rule(r"Interaction::from_(failure|absorption)\(\)", r"Interaction_from_\1()", "+", note="static factory (extracted)"),
@@ -97,8 +98,8 @@ def build_livermore(ctx):
     return (HDR + INTERACTION_MODEL + interaction_factories(ctx) + LPE_MODEL + """
 #define NCOUNT (self->relaxation_.enabled ? 1 + self->relaxation_.max_secondaries_ : 1)
 Interaction LPE_call(LivermorePEInteractor const* self, Engine* rng)
-__CPROVER_requires(self != 0 && self->inc_energy_ > 0 && !__CPROVER_isinfd(self->inc_energy_) && self->relaxation_.max_secondaries_ <= 3 && self->electron_id != INVALID_ID && g_draws == 0)
-__CPROVER_requires(g_cap <= 5 && __CPROVER_rw_ok(g_buf, 5 * sizeof(Secondary)) && g_k < 5 && g_old.particle_id == g_buf[g_k].particle_id && g_old.energy == g_buf[g_k].energy)
+__CPROVER_requires(self != 0 && self->inc_energy_ > 0 && !__CPROVER_isinfd(self->inc_energy_) && self->relaxation_.max_secondaries_ <= 8 && self->electron_id != INVALID_ID && g_draws == 0)
+__CPROVER_requires(g_cap <= 12 && __CPROVER_rw_ok(g_buf, 12 * sizeof(Secondary)) && g_k < 12 && g_old.particle_id == g_buf[g_k].particle_id && g_old.energy == g_buf[g_k].energy)
 __CPROVER_assigns(g_draws, g_requested, g_relax, __CPROVER_object_whole(g_buf))
 /* storage exhausted: explicit failure, no random draw consumed, nothing written */
 __CPROVER_ensures(!(g_alloc_ok && NCOUNT <= g_cap) ==> (__CPROVER_return_value.action == IA_failed && g_draws == 0 && __CPROVER_return_value.secondaries.size == 0 && g_buf[g_k].particle_id == g_old.particle_id && g_buf[g_k].energy == g_old.energy))
@@ -115,8 +116,8 @@ __CPROVER_ensures((g_alloc_ok && NCOUNT <= g_cap) ==> __CPROVER_return_value.ene
 void h_lpe(void)
 {
     LivermorePEInteractor m; Engine* e; size_type cap, k; unsigned r1, r2;
-    __CPROVER_assume(cap <= 5 && k < 5);
-    Secondary buf[5];
+    __CPROVER_assume(cap <= 12 && k < 12);
+    Secondary buf[12];
     g_buf = buf; g_cap = cap; g_k = k; g_alloc_ok = (r1 != 0); m.relaxation_.enabled = (r2 != 0);
     g_old = buf[k];
     LPE_call(&m, e);
